@@ -21,12 +21,34 @@ Fixpoint sfind (c : list byte) (esz : nat) (key : byte) (k fuel : nat) : option 
 Definition grow_cap (cap used n : nat) : nat :=
   if cap - used <? n then align8 ((n - (cap - used)) + cap) else cap.
 
+(* io::queue::write / read at the level of the deque: elements go in at the back
+   while they fit, and come out at the back while there are enough bytes *)
+Fixpoint swrite (c : list byte) (cap : nat) (elems : list (list byte)) (done : nat) : list byte * nat :=
+  match elems with
+  | [] => (c, done)
+  | e :: r =>
+    let free := cap - length c in
+    if (length e <=? free) && negb (free =? 0) then swrite (c ++ e) cap r (S done) else (c, done)
+  end.
+
+Fixpoint sread (c : list byte) (cnt part done : nat) (acc : list byte) : list byte * (nat * list byte) :=
+  match cnt with
+  | 0 => (c, (done, acc))
+  | S k =>
+    if part <=? length c
+    then sread (firstn (length c - part) c) k part (S done) (acc ++ lastn part c)
+    else (c, (done, acc))
+  end.
+
 (* [acc]: the implementation's accept/refuse decision, consulted only where the
    interface allows either (no target buffer for data that is not contiguous,
    search over an element that straddles the wrap); everywhere else the
    specification decides alone.  [e] is the error kind reported on refusal,
-   which the specification does not constrain. *)
-Definition sstep (s : sq) (o : qop) (acc : bool) (e : err) : sq * qout :=
+   which the specification does not constrain.  [k] is the number of bytes the
+   implementation returned; only io::queue::peek consults it: how much more than
+   asked a peek shows depends on where the content wraps, the specification
+   demands a prefix of the content that is long enough. *)
+Definition sstep (s : sq) (o : qop) (acc : bool) (e : err) (k : nat) : sq * qout :=
   let c := sc s in
   let free := scap s - length c in
   match o with
@@ -65,12 +87,46 @@ Definition sstep (s : sq) (o : qop) (acc : bool) (e : err) : sq * qout :=
     else (s, OPos (sfind c esz key 0 (length c)))
   | OpString =>
     if free =? 0 then (s, ORefused e) else (s, OBytes (c ++ [0%N]))
+  | OpIoPrepare n _ => (mksq c (grow_cap (scap s) (length c) n), ODone)
+  | OpIoPush d _ =>
+    let cap := grow_cap (scap s) (length c) (length d) in
+    if (length d <=? cap - length c) && negb (cap - length c =? 0) then (mksq (c ++ d) cap, ODone)
+    else (s, ORefused e)
+  | OpIoUnshift d _ =>
+    let cap := grow_cap (scap s) (length c) (length d) in
+    if (length d <=? cap - length c) && negb (cap - length c =? 0) then (mksq (d ++ c) cap, ODone)
+    else (s, ORefused e)
+  | OpIoPop n h =>
+    if n <=? length c
+    then (mksq (firstn (length c - n) c) (scap s), if h then OBytes (lastn n c) else ODone)
+    else (s, ORefused e)
+  | OpIoShift n h =>
+    if n <=? length c
+    then (mksq (skipn n c) (scap s), if h then OBytes (firstn n c) else ODone)
+    else (s, ORefused e)
+  | OpIoWrite part elems _ =>
+    if part =? 0 then (mksq c (grow_cap (scap s) (length c) (length elems)), OCount (length elems) [])
+    else
+      let cap := grow_cap (scap s) (length c) (part * length elems) in
+      let '(c', done) := swrite c cap elems 0 in
+      (mksq c' cap, OCount done [])
+  | OpIoRead cnt part =>
+    let '(c', (done, d)) := sread c cnt part 0 [] in
+    (mksq c' (scap s), OCount done d)
+  | OpIoPeek n =>
+    let want := if n =? 0 then length c else n in
+    if (k <=? length c) && ((want <=? k) || (k =? length c)) then (s, OBytes (firstn k c))
+    else (s, ORefused e)
+  | OpIoNew n _ => (mksq [] (grow_cap 0 0 n), ODone)
   end.
 
 Definition abs (q : queue) : sq := mksq (contents q) (qmax q).
 
 Definition err_of (o : qout) : err :=
   match o with ORefused e => e | _ => BadArgument end.
+
+Definition len_of (o : qout) : nat :=
+  match o with OBytes d => length d | _ => 0 end.
 
 (* run a history on both levels; the specification is driven by the model's
    accept bits, the outputs are collected *)
@@ -85,6 +141,6 @@ Fixpoint srun (q : queue) (s : sq) (ops : list qop) : list (qout * list byte * n
   | [] => []
   | o :: ops =>
     let '(q', out) := qstep q o in
-    let '(s', sout) := sstep s o (accepted out) (err_of out) in
+    let '(s', sout) := sstep s o (accepted out) (err_of out) (len_of out) in
     (sout, sc s', scap s') :: srun q' s' ops
   end.
